@@ -364,18 +364,33 @@ func verifMetricEquiv(a, b pmetric.Metric, p string) {
 	}
 }
 
-func verifFlattenMetrics(md pmetric.Metrics) []pmetric.Metric {
-	var out []pmetric.Metric
+type verifFlatMetric struct {
+	rm pmetric.ResourceMetrics
+	sm pmetric.ScopeMetrics
+	m  pmetric.Metric
+}
+
+func verifFlattenMetrics(md pmetric.Metrics) []verifFlatMetric {
+	var out []verifFlatMetric
 	for i := 0; i < md.ResourceMetrics().Len(); i++ {
 		rm := md.ResourceMetrics().At(i)
 		for j := 0; j < rm.ScopeMetrics().Len(); j++ {
-			ms := rm.ScopeMetrics().At(j).Metrics()
-			for k := 0; k < ms.Len(); k++ {
-				out = append(out, ms.At(k))
+			sm := rm.ScopeMetrics().At(j)
+			for k := 0; k < sm.Metrics().Len(); k++ {
+				out = append(out, verifFlatMetric{rm, sm, sm.Metrics().At(k)})
 			}
 		}
 	}
 	return out
+}
+
+// verifMetricContainersEquiv: the decoded metric sits under a resource and a scope with the original content.
+func verifMetricContainersEquiv(o, d verifFlatMetric, p string) {
+	rt.Assert(rt.And(verifMapEquiv(o.rm.Resource().Attributes(), d.rm.Resource().Attributes()),
+		rt.And(o.rm.Resource().DroppedAttributesCount() == d.rm.Resource().DroppedAttributesCount(), o.rm.SchemaUrl() == d.rm.SchemaUrl())), p+".resource")
+	rt.Assert(rt.And(rt.And(o.sm.Scope().Name() == d.sm.Scope().Name(), o.sm.Scope().Version() == d.sm.Scope().Version()),
+		rt.And(rt.And(verifMapEquiv(o.sm.Scope().Attributes(), d.sm.Scope().Attributes()), o.sm.Scope().DroppedAttributesCount() == d.sm.Scope().DroppedAttributesCount()),
+			o.sm.SchemaUrl() == d.sm.SchemaUrl())), p+".scope")
 }
 
 func verifRoundTripMetrics(p *Producer, c *Consumer, md pmetric.Metrics, tag string) {
@@ -414,18 +429,19 @@ func verifRoundTripMetrics(p *Producer, c *Consumer, md pmetric.Metrics, tag str
 		// not needed: one metric per batch
 		rt.Assert(out[0].MetricCount() == orig.MetricCount(), tag+".metric_count")
 		if out[0].MetricCount() == 1 && orig.MetricCount() == 1 {
-			om := orig.ResourceMetrics().At(0).ScopeMetrics().At(0).Metrics().At(0)
-			dm := out[0].ResourceMetrics().At(0).ScopeMetrics().At(0).Metrics().At(0)
-			verifMetricEquiv(om, dm, tag)
+			of, df := verifFlattenMetrics(orig), verifFlattenMetrics(out[0])
+			verifMetricContainersEquiv(of[0], df[0], tag)
+			verifMetricEquiv(of[0].m, df[0].m, tag)
 		} else if out[0].MetricCount() == orig.MetricCount() {
 			// several metrics: the harness gives them distinct concrete names; the order of metrics may change
 			of, df := verifFlattenMetrics(orig), verifFlattenMetrics(out[0])
 			for _, om := range of {
 				n := 0
 				for _, dm := range df {
-					if dm.Name() == om.Name() {
+					if dm.m.Name() == om.m.Name() {
 						n++
-						verifMetricEquiv(om, dm, tag)
+						verifMetricContainersEquiv(om, dm, tag)
+						verifMetricEquiv(om.m, dm.m, tag)
 					}
 				}
 				rt.Assert(n == 1, tag+".each_metric_once")
